@@ -220,4 +220,11 @@ def r3_include_is_transparent(ctx: Ctx) -> None:
     ctx.count("include_facts", 2)
 
 
-RULES = [r1_case_fold_before_keying, r2_skip_sets, r3_include_is_transparent]
+def rm_no_process_lifetime_results(ctx: Ctx) -> None:
+    """memoising decorators, module-level stores and mutable defaults on this property's mechanism (shared rule, caches.py)"""
+    from ..caches import state_rule
+
+    state_rule(ctx)
+
+
+RULES = [r1_case_fold_before_keying, r2_skip_sets, r3_include_is_transparent, rm_no_process_lifetime_results]
